@@ -173,8 +173,7 @@ theorem filter_not_not (fs : List FieldSpec) :
     in words. -/
 theorem flat_one_hop {c : PCtx} {A B T q : String} {fs : List FieldSpec} (h : Fam c A B T q fs)
     (svcs : List Svc) (SA SB : Schema) (D : Data) (e : Entity) (r : List (String × J))
-    (hq1 : '#' ∉ q.toList) (hq2 : ':' ∉ q.toList) (hqne : q ≠ "")
-    (hi : '#' ∉ e.id.toList) (hine : e.id ≠ "")
+    (hq1 : '#' ∉ q.toList) (hq2 : ':' ∉ q.toList) (hqne : q ≠ "") (hine : e.id ≠ "")
     (hnne : ∀ n ∈ namesOf fs, n ≠ "")
     (hsA : svcs.find? (·.url == A) = some ⟨A, SA⟩) (hsB : svcs.find? (·.url == B) = some ⟨B, SB⟩)
     (hSB : ∃ td, SB.type? T = some td ∧ td.kind = .object)
@@ -293,7 +292,7 @@ theorem flat_one_hop {c : PCtx} {A B T q : String} {fs : List FieldSpec} (h : Fa
     rw [hnil, mapM_length _ fs r hrefM] at hlen
     have : fs = [] := by cases hfs : fs with | nil => rfl | cons _ _ => rw [hfs] at hlen; simp at hlen
     exact h.hne this
-  obtain ⟨calls, hg⟩ := stage_gateway h (specDownstream svcs D) e.id ra rb hq1 hq2 hqne' hi hine hA hB hb0 hbnd hdisj hid htn hne
+  obtain ⟨calls, hg⟩ := stage_gateway h (specDownstream svcs D) e.id ra rb hq1 hq2 hqne' hine hA hB hb0 hbnd hdisj hid htn hne
   exact ⟨ra ++ rb, calls, hg, hperm⟩
 
 end PebblesVerif.Flat
